@@ -65,7 +65,17 @@ def falsy_family(ld, r, count, disk_dir=None):
                 v = vals[i]
                 return (v, calls[i]) if calls[i] > 1 else v        # a second evaluation would be visible
             keyed = r.random() < 0.5
-            src = ld.new({f'key{i}': i for i in range(n)} if keyed else list(range(n))).map(fn)
+            # keys: ordinary ones, or strings that look like integers ('0', '-1', '10') stored at OTHER positions - a key is a key
+            if keyed and r.random() < 0.5:
+                pool = [str((i + 1) % n) for i in range(n)]
+                if n > 1 and r.random() < 0.5:
+                    pool[0] = '-1'
+                if r.random() < 0.3:
+                    pool[-1] = '10'
+                knames = pool
+            else:
+                knames = [f'key{i}' for i in range(n)]
+            src = ld.new({knames[i]: i for i in range(n)} if keyed else list(range(n))).map(fn)
             wd = None
             try:
                 if disk_dir is not None:
@@ -79,7 +89,7 @@ def falsy_family(ld, r, count, disk_dir=None):
                     i = r.randrange(n)
                     if how == 'idx': seen.append((i, d[i]))
                     elif how == 'neg': seen.append((i, d[i - n]))
-                    elif how == 'key': seen.append((i, d[f'key{i}']))
+                    elif how == 'key': seen.append((i, d[knames[i]]))
                     elif how == 'iter': seen += list(enumerate(d))
                     elif how == 'items': seen += [(j, kv[1]) for j, kv in enumerate(d.items())]
                     elif how == 'slice': seen += [(i + j, x) for j, x in enumerate(d[i:])]
